@@ -7,7 +7,8 @@ import itertools
 from mc import pool, seams, canon, factory_engine as F
 from . import c12
 
-CHARS = ["a", " ", "é", "#", ":", '"', "F", "à", "Ѕ"]  # à = c3 a0, Ѕ = d0 85: last UTF-8 byte looks like NBSP / NEL
+# à = c3 a0, Ѕ = d0 85: last UTF-8 byte looks like NBSP / NEL; U+2028 and FF: line ends for str.splitlines() only, not for Sieve comments
+CHARS = ["a", " ", "é", "#", ":", '"', "F", "à", "Ѕ", "\u2028", "\x0c"]
 MARKERS = [("# Filter: ", "# Description: "), ("# rule:", "# info:"), ("#N ", "#D "), ("# Règle : ", "# Détail → ")]
 
 
